@@ -147,6 +147,7 @@ def replay_cases(ctx):
     cs = [f.get("case", "") for f in rep.get("failures", [])]
     if rep.get("failing_input"):
         cs.insert(0, rep["failing_input"].get("case", ""))
+    cs = [c.split("   [build")[0] for c in cs]
     cs = [c for c in cs if c.split(" ")[0] in ("crc", "upd", "sse42", "tables")]
     return list(dict.fromkeys(cs)) or None
 
@@ -164,7 +165,14 @@ def run_config(ctx, sub, cfg, cases, mexe):
         # a silent fallback to the portable code would make this configuration's run meaningless
         ctx.fail(sub, "tie", "which", "configuration %s selected %s, expected %s: accelerated path not covered"
                  % (cfg, which, want))
-        return None
+        # If the CPU has SSE4.2 the fallback was caused by the library's own self-test failing: go on, the
+        # direct CRC32C_Update_SSE42 calls among the cases then exhibit the wrong function concretely.
+        try:
+            has = "sse4_2" in open("/proc/cpuinfo").read()
+        except OSError:
+            has = False
+        if not has:
+            return None
     ctx.count("%s.config.%s" % (sub, cfg))
     impl, st = vlib.run_sharded(exe, cases, env=ENV)
     vlib.sanitizer_reports(ctx, sub, st, cases_desc="build " + cfg)
